@@ -39,7 +39,7 @@ def canon(obs, is_model):
     out = []
     for b in recs:
         f = b[1:8]
-        dig = f[2] if is_model else hash_bytes(f[2])
+        dig = f[2]          # both sides print the digest [length, s1, s2]
         out.append([b[0], [f[0], f[1], dig, f[3], f[4], f[5], f[6]], b[8][:2]])
     return [out, tail, glob[:2]]
 
